@@ -83,7 +83,10 @@ def main():
     if not use_model and not args.no_lean:
         print("INTERNAL: model driver not built (run MANIFEST.setup_cmd)")
         return 2
-    mod.run(ctx, model if use_model else None)
+    try:
+        mod.run(ctx, model if use_model else None)
+    except crlib.StopRun:
+        ctx.notes.append("exploration stopped early: 25 violations collected")
     if use_model:
         model.flush()
 
@@ -112,7 +115,7 @@ def main():
             sub.deadline = t_end
             try:
                 mod.run(sub, None)
-            except crlib.Timeout:
+            except (crlib.Timeout, crlib.StopRun):
                 pass
             ctx.evaluations += sub.evaluations
             ctx.nontrivial |= sub.nontrivial
